@@ -301,6 +301,7 @@ func checkC03(c *Ctx) {
 	}
 
 	// ---- accounting (K1+K4+K3)
+	nTailMM := 0
 	r.Rule("C03.accounting", "K1", "after dispatchKeys, every path calls exactly one of MatchedPrefix (iff prefix) / MatchedKeys, with read/matched in the right roles", 6)
 	for _, f := range []*ssa.Function{MM, ML} {
 		dcalls := callsTo(f, false, "(*keymap.Engine).dispatchKeys")
@@ -318,6 +319,10 @@ func checkC03(c *Ctx) {
 			for _, ref := range referrersOf(dc.(*ssa.Call)) {
 				if ex, ok := ref.(*ssa.Extract); ok {
 					role[ex.Index][ex] = true
+					// the keys dispatchCharacter returns are all matched by the bind it returns
+					if ex.Index == 2 && calleeName(dc) == "(*keymap.Engine).dispatchCharacter" {
+						role[3][ex] = true
+					}
 				}
 			}
 		}
@@ -429,9 +434,28 @@ func checkC03(c *Ctx) {
 				args := in.(ssa.CallInstruction).Common().Args
 				okGuard := ext[1] != nil && knownBool(factsAt(bf, in), ext[1], false)
 				var okArgs bool
+				isTail := func(v ssa.Value) bool {
+					// read[len(matched):]
+					sl, ok := v.(*ssa.Slice)
+					if !ok || !role[2][sl.X] || sl.High != nil {
+						return false
+					}
+					cl, ok := sl.Low.(*ssa.Call)
+					if !ok {
+						return false
+					}
+					b, ok := cl.Call.Value.(*ssa.Builtin)
+					return ok && b.Name() == "len" && role[3][cl.Call.Args[0]]
+				}
 				if f == MM {
-					// all read keys are consumed, nothing pushed back
-					okArgs = from(args[1], 2) && isNilConst(args[2])
+					// either all read keys are consumed and nothing is pushed back (no bind ran, or it
+					// matched every key), or the matched keys are consumed and the rest is pushed back
+					formA := from(args[1], 2) && isNilConst(args[2])
+					formB := from(args[1], 3) && isTail(args[2])
+					okArgs = formA || formB
+					if formB {
+						nTailMM++
+					}
 				} else {
 					// matched keys consumed; the unread tail read[len(matched):] is pushed back
 					okArgs = from(args[1], 3)
@@ -469,6 +493,8 @@ func checkC03(c *Ctx) {
 			r.Check(okKey && okGuard, "C03.command-lookup", key, p.IPos(in), "commands[bind.Action] under !bind.Macro", fmt.Sprintf("command lookup is not keyed by the dispatched bind's Action under !bind.Macro (key ok=%v, guard ok=%v)", okKey, okGuard))
 		})
 	}
+	r.Rule("C03.ruled-out-key", "K3", "when the main dispatcher runs a shorter bind because a key ruled out the longer sequences, it consumes the keys that matched and puts the rest back in front of the queue (MatchedKeys(keys, matched, read[len(matched):]...))", 1)
+	r.Check(nTailMM > 0, "C03.ruled-out-key", "keymap.MatchMain:pushes-back-unmatched", p.Pos(MM.Pos()), "the unmatched tail is pushed back", "MatchMain marks every key it read as matched: the key that ruled out a longer bind is consumed with the shorter one (with \"jk\" bound, typing \"jazz\" gives \"jzz\")")
 	// resolve(): the other lookup site
 	if RS := p.Func("(*keymap.Engine).resolve"); RS != nil {
 		r.Fn(fnName(RS))
@@ -767,6 +793,7 @@ func checkC03(c *Ctx) {
 	} else {
 		r.Unk("C03.register", "(*keymap.Engine).Register", "-", "anchor not found")
 	}
+	checkKeyCodeTables(c, "C03.key-code-tables")
 }
 
 // macroFieldOf: cond is a read of a Bind's Macro field (Field or load of FieldAddr).
